@@ -182,7 +182,7 @@ func (es *EphemeralWalletStore) AddBroadcastedSet(set wallet.BroadcastedSet) err
 func (es *EphemeralWalletStore) BroadcastedSets() ([]wallet.BroadcastedSet, error) {
 	es.mu.Lock()
 	defer es.mu.Unlock()
-	return es.broadcasted, nil
+	return slices.Clone(es.broadcasted), nil
 }
 
 // RemoveBroadcastedSet removes a set so it's no longer rebroadcasted.
